@@ -87,6 +87,7 @@ func checkC01(c *Ctx) {
 	var ct *clientTables
 	nMethods := 0
 	hdrBad, hdrBadPos := "", ""
+	ctvBad, ctvBadPos := "", ""
 	escBad, escBadPos := "", ""
 	qBad, qBadPos := "", ""
 	nSubst, nQuery := 0, 0
@@ -129,6 +130,33 @@ func checkC01(c *Ctx) {
 						continue
 					}
 					nMethods++
+					// R01j: the codec of the request body, the Content-Type header the server answers by, and the decoder of the
+					// answer are selected by one and the same expression (the per-call content type)
+					ctUses := map[string]string{}
+					ast.Inspect(fd.Body, func(n ast.Node) bool {
+						call, ok := n.(*ast.CallExpr)
+						if !ok || len(call.Args) == 0 {
+							return true
+						}
+						last := types.ExprString(call.Args[len(call.Args)-1])
+						switch fn := types.ExprString(call.Fun); fn {
+						case "c.marshalRequest", "c.unmarshalResponse":
+							ctUses[fn] = last
+						case "httpReq.Header.Set":
+							if len(call.Args) == 2 && types.ExprString(call.Args[0]) == `"Content-Type"` {
+								ctUses["Content-Type header"] = last
+							}
+						}
+						return true
+					})
+					if hv, ok := ctUses["Content-Type header"]; ok && ctvBad == "" {
+						for _, k := range sortedKeys(ctUses) {
+							if ctUses[k] != hv {
+								ctvBad = fmt.Sprintf("%s is given %s, the Content-Type header is set to %s", k, ctUses[k], hv)
+								ctvBadPos = gen(fd.Pos())
+							}
+						}
+					}
 					// Content-Type header on every path: must-pass to the return of the result
 					var hdr []token.Pos
 					ast.Inspect(fd.Body, func(n ast.Node) bool {
@@ -241,6 +269,10 @@ func checkC01(c *Ctx) {
 	}
 	r.Check(hdrBad == "" && nMethods > 0, "R01a", "every RPC method sets Content-Type from the per-call content type before executing the request (all variants)", hdrBadPos,
 		"method "+hdrBad+" can execute the request without `httpReq.Header.Set(\"Content-Type\", contentType)`: the server picks the response codec from the request's Content-Type, the client decodes with its own")
+
+	r.Rule("R01j", "request encoder, Content-Type header and response decoder of an RPC method are selected by one expression (the per-call content type; shared with C10/R10e)", 1)
+	r.CheckD(ctvBad == "" && nMethods > 0, "R01j", "go-client RPC methods (all variants): the response is decoded with the content type the request announced", ctvBadPos,
+		"the emitted RPC method selects its codecs from different values: "+ctvBad+" — the server answers in the format of the request's Content-Type, so a call whose per-call content type differs from the client's default cannot decode the answer", map[string]any{"methods_checked": nMethods})
 
 	// ---- R01c
 	r.Check(escBad == "" && nSubst > 0, "R01c", "every path variable substitution is url.PathEscape'd (all variants)", escBadPos,
